@@ -41,12 +41,21 @@ func TextConsumer() Consumer {
 
 		// If the buffer is empty, no need to unmarshal it, which causes a panic.
 		if len(b) == 0 {
+			v := reflect.ValueOf(data)
+			usable := v.Kind() == reflect.Ptr && !v.IsNil()
+			if _, isTextUnmarshaler := data.(encoding.TextUnmarshaler); isTextUnmarshaler && (usable || v.Kind() != reflect.Ptr) {
+				return nil
+			}
 			// a string destination must not keep its previous content after an empty read
-			if v := reflect.ValueOf(data); v.Kind() == reflect.Ptr && !v.IsNil() && v.Elem().Kind() == reflect.String {
+			if usable && v.Elem().Kind() == reflect.String {
 				v.Elem().SetString("")
+
+				return nil
 			}
 
-			return nil
+			// nothing was read, but the destination could not have held anything: same answer as for a non-empty input
+			return fmt.Errorf("%v (%T) is not supported by the TextConsumer, %s",
+				data, data, "can be resolved by supporting TextUnmarshaler interface")
 		}
 
 		if tu, ok := data.(encoding.TextUnmarshaler); ok {
